@@ -31,6 +31,7 @@ type CheckCfg struct {
 	MaxDecisions   int      `json:"max_decisions"`
 	MaxPreemptions *int     `json:"max_preemptions"`          // quick tier; default 2
 	MaxPreemptionsThorough *int `json:"max_preemptions_thorough"` // default 3
+	MaxPreemptionsByHarness map[string][]int `json:"max_preemptions_by_harness"` // harness name -> [quick, thorough]: overrides the two knobs above for that harness
 	QuickSecs      int      `json:"quick_secs"`
 	ThoroughSecs   int      `json:"thorough_secs"`
 	MaxPaths       int      `json:"max_paths"`
@@ -300,6 +301,9 @@ func cmdCheck(args []string) int {
 			}
 		} else if cfg.MaxPreemptions != nil {
 			h.MaxPreemptions = *cfg.MaxPreemptions
+		}
+		if pb := cfg.MaxPreemptionsByHarness[fn.Name()]; len(pb) == 2 {
+			h.MaxPreemptions = pb[tierN]
 		}
 		if h.MaxDecisions == 0 {
 			h.MaxDecisions = 4000
